@@ -45,6 +45,11 @@ def validates (env : Env) (version : Str) (c : ClassDef) (g : Globals) : Res Glo
     | _ => .ok g1
   | _ => .ok g1
 
+/-- `needle in haystack` for strings -/
+def hasInfix (needle : Str) : Str → Bool
+  | [] => needle.isEmpty
+  | c :: rest => needle.isPrefixOf (c :: rest) || hasInfix needle rest
+
 /-- `validator_for(schema, default)`: the class and whether a DeprecationWarning was issued -/
 def validatorFor (env : Env) (g : Globals) (dflt : ClassDef) (schema : Json) : Res (ClassDef × Bool) :=
   match schema with
@@ -59,7 +64,11 @@ def validatorFor (env : Env) (g : Globals) (dflt : ClassDef) (schema : Json) : R
         match lookupS k g.metaSchemas with
         | some c => .ok (c, false)
         | none => .ok (g.latest, true)
+    | some .null => .ok (g.latest, true)           -- `urlsplit(None)` happens to work: "not found", warning
     | some _ => .raise (.crash "AttributeError")
+  -- `"$schema" not in schema` also answers for lists (membership) and strings (substring)
+  | .arr xs => if xs.contains (.str (skey "$schema")) then .raise (.crash "TypeError") else .ok (dflt, false)
+  | .str s => if hasInfix (skey "$schema") s then .raise (.crash "TypeError") else .ok (dflt, false)
   | _ => .raise (.crash "TypeError")
 
 /-- the resolver `cls(schema)` builds for itself: `RefResolver.from_schema(schema, id_of=id_of)` -/
